@@ -1,3 +1,6 @@
+// replay for property C17, harness c17_copy_step_l7 (/verif/harness/anapaya-edge-tun/c17_defrag.rs)
+// failed checks reported by CBMC:
+//   attempt to divide by zero @ crates/libs/anapaya-edge-tun/src/fragmenting.rs:577:35 in function fragmenting::DefragQueue::ingest_frame
 //! verif-attach: file=crates/libs/anapaya-edge-tun/src/fragmenting.rs crate=anapaya-edge-tun mod=verif_c17
 //!
 //! C17 — tunnel reassembly emits only intact packets, at most once, in any frame order.
@@ -492,68 +495,155 @@ fn c17_copy_step_l7() {
     copy_step::<7>()
 }
 
-/// Completion, one step from an arbitrary slot state (any receive mask, any window >= 256, any
-/// last-frame offset, expected count consistent with them or still unknown): a packet is emitted
-/// only when the last frame and *every* frame index in front of it are in the receive mask, and
-/// its length is the one the last frame announced. With "bit i set => frame i was stored since
-/// init" (c17_copy_step_*, c17_integrity_*) this carries the integrity argument to any number of
-/// frames (up to the 256 the mask can hold), not just the 2-4 frames the sequence harnesses run.
-fn completion_step() {
-    let so: u64 = kani::any();
-    let d = any_frame_params();
-    let b: usize = kani::any();
-    let mut q = DefragQueue::new();
-    q.stream_offset = so;
-    q.idle = false;
-    q.recv_mask = kani::any();
-    let w: usize = kani::any();
-    kani::assume(w >= MIN_PAYLOAD_SIZE && w <= MAX_PACKET_SIZE);
-    let have_w: bool = kani::any();
-    let have_last: bool = kani::any();
-    let lo: u16 = kani::any();
-    let ll: usize = kani::any();
-    kani::assume(lo as usize + ll <= MAX_PACKET_SIZE);
-    q.frame_window_size = if have_w { Some(w) } else { None };
-    q.last_frame_offset = if have_last { Some(lo) } else { None };
-    q.final_packet_size = if have_last { Some(lo as usize + ll) } else { None };
-    // representation invariant: the last-frame bit is set exactly when the last frame is known
-    let last_bit: BitmaskType = 1 << ((MAX_FRAMES - 1) % BITMASK_ENTRY_BITS);
-    kani::assume(((q.recv_mask[BITMASK_ENTRY_COUNT - 1] & last_bit) != 0) == have_last);
-    // middle frames are only stored once the window is known
-    if !have_w {
-        kani::assume(q.recv_mask[0] == 0 && q.recv_mask[1] & !last_bit == 0);
-    }
-    // expected count: known only when window and last frame are, and then consistent with them
-    let have_e: bool = kani::any();
-    if have_w && have_last && have_e {
-        kani::assume(lo as usize % w == 0);
-        q.expected_frames = Some(lo as usize / w + 1);
-    } else {
-        q.expected_frames = None;
-    }
-    let buf: [u8; PAY] = kani::any();
-    let f = mk_frame(&buf, so, &d);
-    if let Ok(Some(p)) = q.ingest_frame(&f) {
-        let plen = p.payload.len();
-        let (Some(wn), Some(lon), Some(fin)) = (q.frame_window_size, q.last_frame_offset, q.final_packet_size) else {
-            assert!(false, "packet emitted without knowing window, last offset and size");
-            return;
-        };
-        kani::cover!(lon as usize / wn >= 130, "packet of more than 130 frames completed");
-        kani::cover!(lon as usize / wn == 1, "two-frame packet completed");
-        assert!(plen == fin, "emitted length differs from the size the last frame announced");
-        assert!(q.recv_mask[BITMASK_ENTRY_COUNT - 1] & last_bit != 0, "packet emitted without its last frame");
-        let frames_before_last = lon as usize / wn;
-        if b < frames_before_last {
-            let bit: BitmaskType = 1 << (b % BITMASK_ENTRY_BITS);
-            assert!(q.recv_mask[b / BITMASK_ENTRY_BITS] & bit != 0, "packet emitted although a frame in front of the last one is missing");
-        }
-    }
+#[cfg(test)]
+mod verif_playback {
+    use super::*;
+/// Test generated for harness `fragmenting::verif_c17::c17_copy_step_l7` 
+///
+/// Check for `assertion`: "attempt to divide by zero"
+
+#[test]
+fn kani_concrete_playback_c17_copy_step_l7_2742987192070120485() {
+    let concrete_vals: Vec<Vec<u8>> = vec![
+        // 4785074604081152ul
+        vec![0, 0, 0, 0, 0, 0, 17, 0],
+        // 300ul
+        vec![44, 1, 0, 0, 0, 0, 0, 0],
+        // 0
+        vec![0, 0],
+        // 1
+        vec![1],
+        // 32768
+        vec![0, 128],
+        // 65411ul
+        vec![131, 255, 0, 0, 0, 0, 0, 0],
+        // 18446744073709551615ul
+        vec![255, 255, 255, 255, 255, 255, 255, 255],
+        // 0
+        vec![0],
+        // 65535
+        vec![255, 255],
+        // 1
+        vec![1],
+        // 0ul
+        vec![0, 0, 0, 0, 0, 0, 0, 0],
+        // 0
+        vec![0],
+        // 0
+        vec![0],
+        // 1
+        vec![1],
+        // 65535
+        vec![255, 255],
+        // 251
+        vec![251],
+        // 65411ul
+        vec![131, 255, 0, 0, 0, 0, 0, 0],
+    ];
+    let mut concrete_vals = concrete_vals;
+    concrete_vals.extend(std::iter::repeat(vec![0u8]).take(8192));
+    kani::concrete_playback_run(concrete_vals, c17_copy_step_l7);
 }
 
-// verif: prop=C17 tier=quick cap=900 bound="one ingest step from any slot state with up to 256 frames outstanding (any receive mask, window 256..65535, any last-frame offset/length), one arbitrary frame" fns="DefragQueue::ingest_frame (expected-frame computation and completion test)" stubs="none"
-#[kani::proof]
-#[kani::unwind(4)]
-fn c17_completion_step() {
-    completion_step()
+/// Test generated for harness `fragmenting::verif_c17::c17_copy_step_l7` 
+///
+/// Check for `cover`: "accepted frame covers the observed byte"
+
+#[test]
+fn kani_concrete_playback_c17_copy_step_l7_10030889243670851709() {
+    let concrete_vals: Vec<Vec<u8>> = vec![
+        // 4785074604081152ul
+        vec![0, 0, 0, 0, 0, 0, 17, 0],
+        // 300ul
+        vec![44, 1, 0, 0, 0, 0, 0, 0],
+        // 65528
+        vec![248, 255],
+        // 1
+        vec![1],
+        // 32768
+        vec![0, 128],
+        // 65534ul
+        vec![254, 255, 0, 0, 0, 0, 0, 0],
+        // 18446744073709551615ul
+        vec![255, 255, 255, 255, 255, 255, 255, 255],
+        // 0
+        vec![0],
+        // 65535
+        vec![255, 255],
+        // 1
+        vec![1],
+        // 0ul
+        vec![0, 0, 0, 0, 0, 0, 0, 0],
+        // 0
+        vec![0],
+        // 1
+        vec![1],
+        // 4ul
+        vec![4, 0, 0, 0, 0, 0, 0, 0],
+        // 1
+        vec![1],
+        // 65535
+        vec![255, 255],
+        // 251
+        vec![251],
+        // 65534ul
+        vec![254, 255, 0, 0, 0, 0, 0, 0],
+    ];
+    let mut concrete_vals = concrete_vals;
+    concrete_vals.extend(std::iter::repeat(vec![0u8]).take(8192));
+    kani::concrete_playback_run(concrete_vals, c17_copy_step_l7);
 }
+
+/// Test generated for harness `fragmenting::verif_c17::c17_copy_step_l7` 
+///
+/// Check for `cover`: "rejected frame"
+
+#[test]
+fn kani_concrete_playback_c17_copy_step_l7_12023304040808158696() {
+    let concrete_vals: Vec<Vec<u8>> = vec![
+        // 4785074604081152ul
+        vec![0, 0, 0, 0, 0, 0, 17, 0],
+        // 300ul
+        vec![44, 1, 0, 0, 0, 0, 0, 0],
+        // 32769
+        vec![1, 128],
+        // 1
+        vec![1],
+        // 65535
+        vec![255, 255],
+        // 32767ul
+        vec![255, 127, 0, 0, 0, 0, 0, 0],
+        // 18446744073709551615ul
+        vec![255, 255, 255, 255, 255, 255, 255, 255],
+        // 1
+        vec![1],
+        // 65535
+        vec![255, 255],
+        // 0
+        vec![0],
+        // 1
+        vec![1],
+        // 65535ul
+        vec![255, 255, 0, 0, 0, 0, 0, 0],
+        // 0
+        vec![0],
+        // 1
+        vec![1],
+        // 65535
+        vec![255, 255],
+        // 255
+        vec![255],
+        // 32767ul
+        vec![255, 127, 0, 0, 0, 0, 0, 0],
+    ];
+    let mut concrete_vals = concrete_vals;
+    concrete_vals.extend(std::iter::repeat(vec![0u8]).take(8192));
+    kani::concrete_playback_run(concrete_vals, c17_copy_step_l7);
+}
+}
+
+// native replay (full trace; cargo kani playback, dev profile, real code):
+//   kani_concrete_playback_c17_copy_step_l7_2742987192070120485: did not reproduce (attempt to divide by zero)
+//   kani_concrete_playback_c17_copy_step_l7_10030889243670851709: did not reproduce (cover:accepted frame covers the observed byte)
+//   kani_concrete_playback_c17_copy_step_l7_12023304040808158696: did not reproduce (cover:rejected frame)
+// re-run: bin/check C17 --replay /verif/replays/C17/c17_copy_step_l7.rs
